@@ -669,7 +669,7 @@ pub fn leg_http(thorough: bool, seed: u64) -> Value {
         sys.block_on(async {
             let app = test::init_service(App::new().configure(|sc| web.config(sc))).await;
             let mut latest = NIL;
-            let mut sizes: Vec<(usize, usize)> = vec![(1, 0), (4095, 1), (4096, 4), (4097, 2), (65536, 4), ((1 << 20) + 1, 1), (3 * (1 << 20) - 1, 5), (LIMIT, 5), (LIMIT + 1, 5), (LIMIT + 1, 0)];
+            let mut sizes: Vec<(usize, usize)> = vec![(1, 0), (4095, 1), (4096, 4), (4097, 2), (4098, 3), (65536, 4), ((1 << 20) + 1, 1), (3 * (1 << 20) - 1, 5), (LIMIT, 5), (LIMIT + 1, 5), (LIMIT + 1, 0)];
             if thorough {
                 sizes.extend([(65535, 1), (1 << 20, 4), (LIMIT - 1, 5), (LIMIT, 0), (LIMIT + (1 << 20), 5)]);
             }
@@ -1083,5 +1083,5 @@ pub fn leg_http(thorough: bool, seed: u64) -> Value {
     let nv = ctx.violations.len();
     json!({"leg": "http", "requests": ctx.requests, "distinct_outcomes": ctx.outcomes, "violations": ctx.violations, "violations_total": nv, "samples": ctx.samples,
         "inconclusive_items": ctx.inconclusive.iter().take(5).collect::<Vec<_>>(),
-        "bound": format!("in process (no socket); protocol histories of {} random requests x 2 configs x 2 backends; client-id forms x 4 endpoints x 4 allow-lists (absent, empty, one, many); 15 malformed requests; body sizes 1, 4095, 4096, 4097, 65536, 1 MiB+1, 3 MiB-1, limit, limit+1{} in up-to-5 chunkings; never-seen clients; a repeated X-Client-Id header (unlisted id first) on 4 endpoints; 3 generations of WebServer on one SQLite directory (restart) with and without an allow-list; 2..4 uploads in flight at once on one worker (bodies chunk by chunk round-robin) x 3 shapes x 2 backends; each of the first 6 storage calls of each endpoint's request failing before / after taking effect", if thorough { 120 } else { 45 }, if thorough { ", 65535, 1 MiB, limit-1, limit+1 MiB" } else { "" })})
+        "bound": format!("in process (no socket); protocol histories of {} random requests x 2 configs x 2 backends; client-id forms x 4 endpoints x 4 allow-lists (absent, empty, one, many); 15 malformed requests; body sizes 1, 4095, 4096, 4097, 4098 (with empty chunks in between), 65536, 1 MiB+1, 3 MiB-1, limit, limit+1{} in up-to-5 chunkings; never-seen clients; a repeated X-Client-Id header (unlisted id first) on 4 endpoints; 3 generations of WebServer on one SQLite directory (restart) with and without an allow-list; 2..4 uploads in flight at once on one worker (bodies chunk by chunk round-robin) x 3 shapes x 2 backends; each of the first 6 storage calls of each endpoint's request failing before / after taking effect", if thorough { 120 } else { 45 }, if thorough { ", 65535, 1 MiB, limit-1, limit+1 MiB" } else { "" })})
 }
